@@ -54,6 +54,29 @@ def wkind : WOp → String
   | .blk _ => "blk" | .blkidx _ => "blkidx" | .tbl _ => "tbl" | .tblidx _ => "tblidx" | .tblsum _ => "tblsum" | .com _ => "com" | .ref _ _ => "ref"
   | .delBlk _ => "del-blk" | .delBlkidx _ => "del-blkidx" | .delTbl _ => "del-tbl" | .delTblidx _ => "del-tblidx" | .delTblsum _ => "del-tblsum" | .delCom _ => "del-com"
 
+/-- a recorded write that changes no object and no ref: the status flip of a transaction -/
+def isStatusWrite (j : Json) : Bool :=
+  match j.getArr?.toOption.map (·.toList) with
+  | some [Json.str "tx.update", _] => true
+  | _ => false
+
+/-- what the model says `transaction commit` writes for the staged branches `heads` (refs), given the
+    extracted order of one round of its loop and the status flip ("com", "ref", "status"): per
+    staged branch one commit object and then the update of that branch to exactly that commit, each
+    branch once, in any branch order (the loop ranges over a map); the status flip after all of them.
+    `raw`: the recorded writes (`none` = the status flip). -/
+def txCommitWritesOk (order : List String) (heads : List Nat) (raw : List (Option WOp)) : Bool :=
+  let perBranch := order.filter (· != "status")
+  let kinds := raw.map (fun o => match o with | some w => wkind w | none => "status")
+  let expected := (List.replicate heads.length perBranch).flatten ++ order.filter (· == "status")
+  let ws := raw.filterMap id
+  let coms := ws.filterMap (fun w => match w with | .com c => some c | _ => none)
+  let refs := ws.filterMap (fun w => match w with | .ref r c => some (r, c) | _ => none)
+  kinds == expected &&
+  -- the k-th ref update puts the k-th new commit on its branch; every staged branch exactly once
+  refs.map (·.2) == coms &&
+  refs.all (fun p => heads.contains p.1) && heads.all (fun h => (refs.filter (fun p => p.1 == h)).length == 1)
+
 /-- what the model says the operation writes, by kind, for a table of `nb` blocks -/
 def modelKinds (kind : String) (nb : Nat) : Option (List String) :=
   let blocks := List.range nb
@@ -99,8 +122,11 @@ def handleC13 (op : String) (input impl : Json) : Except String Json := do
     let u ← universeOf (← fld input "universe")
     let init ← rstateOf (← fld input "init")
     let heads ← asNatList (fldD input "heads" (Json.arr #[]))
-    let wsOpt ← (← arrFld input "writes").mapM wopOf
+    let wsRaw ← arrFld input "writes"
+    let wsOpt ← wsRaw.mapM wopOf
     let ws := wsOpt.filterMap id
+    -- every recorded write is one the model knows: an object / ref write, or (transaction commit) the status flip
+    let wsKnown := (wsRaw.zip wsOpt).all (fun (j, o) => o.isSome || (kind == "tx-commit" && isStatusWrite j))
     let v := fldD impl "val" Json.null
     let final ← rstateOf (← fld v "final")
     let crashes ← (← arrFld v "crashes").mapM rstateOf
@@ -173,13 +199,16 @@ def handleC13 (op : String) (input impl : Json) : Except String Json := do
     -- fetch: the order in which the remote's refs are advertised (a Go map) may change the order of the
     -- transfer from run to run, so each interrupted run is compared with ITS OWN recorded writes: k of
     -- them, all among the writes of the uninterrupted run, and the state is exactly their effect
+    -- transaction commit: the loop over the staged branches ranges over a Go map, so the branch order
+    -- differs from run to run: same comparison (the status flip is the last write, never inside a prefix)
     let tracesOpt ← (arrD "traces").mapM (fun t => do (← asArr t).mapM wopOf)
     let ownPrefix := fun (c : RState) (k : Nat) => match tracesOpt[k]? with
       | some t => t.all Option.isSome && t.length == k && (t.filterMap id).all ws.contains &&
                   canonState (init.applyAll (t.filterMap id)) == canonState c
       | none => false
-    let prefixOk := wsOpt.all Option.isSome &&
-      (crashes.zipIdx).all (fun (c, k) => if kind == "fetch" then ownPrefix c k else if concurrentBlocks then crashOk c k else strictPrefix c k) &&
+    let ownOrder := kind == "fetch" || kind == "tx-commit"
+    let prefixOk := wsKnown &&
+      (crashes.zipIdx).all (fun (c, k) => if ownOrder then ownPrefix c k else if concurrentBlocks then crashOk c k else strictPrefix c k) &&
       canonState (init.applyAll ws) == canonState final && faulted.all id
     -- fetch / receive: refs are saved by the caller after every object arrived, and the writes of each
     -- received table are those of the model (block indices, table index, profile, table object) in its order
@@ -201,7 +230,9 @@ def handleC13 (op : String) (input impl : Json) : Except String Json := do
         norm ks == norm (ws.map wkind) &&
         -- every block index after ... and all block writes before the first table-level write
         ((ws.map wkind).takeWhile (fun k => k == "blk" || k == "blkidx")).length == 2 * nb
-      | none => if kind == "fetch" then refsLast && tableOrderOk else true
+      | none => if kind == "fetch" then refsLast && tableOrderOk
+                else if kind == "tx-commit" then txCommitWritesOk Facts.writeOrderTxCommit heads wsOpt
+                else true
     return reply (Json.str (canonState (init.applyAll ws))) (prefixOk && kindsOk) viol
   | _ => throw s!"unknown op {op}"
 
